@@ -398,6 +398,32 @@ fn c17_est<E: Est>(out: &mut Out, tier: &str, rng: &mut Rng) {
     }
 }
 
+/// lopsided merges: the mean must stay inside the hull of the data, the variances non-negative
+fn c17_lopsided<E: Est>(out: &mut Out, tier: &str, rng: &mut Rng) {
+    if E::NAME == "Min" || E::NAME == "Max" { return; }
+    for t in lopsided_trees(rng, tier != "thorough") {
+        if !out.next_case() { continue; }
+        let e: E = eval_tree(out, &t, Trace::None, rng);
+        let accs = observe(out, &e);
+        let d = t.flatten();
+        let mn = d.iter().cloned().fold(f64::INFINITY, f64::min);
+        let mx = d.iter().cloned().fold(f64::NEG_INFINITY, f64::max);
+        let m = d.iter().map(|x| x.abs()).fold(0.0, f64::max);
+        for a in &accs {
+            if let Val::F(v) = a.val {
+                if matches!(a.op.as_str(), "population_variance" | "sample_variance" | "variance_of_mean" | "error" | "error_mean" | "central_moment:2") && !v.is_nan() {
+                    out.x(v >= 0.0, || format!("{}.{} = {:?} < 0 for tree {}", E::NAME, a.op, v, t.shape()));
+                }
+                if a.op == "mean" {
+                    let slack = 12.0 * d.len() as f64 * 2f64.powi(-53) * m;
+                    out.x(v >= mn - slack && v <= mx + slack, || format!("{}.mean = {:?} outside [{:?},{:?}] (+-{:?}) tree {} first chunk starts {:?}", E::NAME, v, mn, mx, slack, t.shape(), &d[..3.min(d.len())]));
+                }
+            }
+        }
+        out.note(&format!("{}:lopsided", E::NAME));
+    }
+}
+
 fn c17_pairs(out: &mut Out, tier: &str, rng: &mut Rng) {
     let reps = if tier == "thorough" { 300 } else { 60 };
     for r in 0..reps {
@@ -414,7 +440,8 @@ fn c17_pairs(out: &mut Out, tier: &str, rng: &mut Rng) {
             }
         }
         // weighted: mean inside the hull, effective_len in [1, len]
-        let ws: Vec<f64> = (0..n).map(|_| if rng.unit() < 0.2 { 0.0 } else { 10f64.powf(rng.range(-6.0, 6.0)) }).collect();
+        let ws: Vec<f64> = if r % 3 == 0 { (0..n).map(|_| if rng.unit() < 0.2 { 0.0 } else { 10f64.powf(rng.range(-6.0, 6.0)) }).collect() }
+                           else { crate::props_pair::weights(rng, n, r % crate::props_pair::WEIGHT_PATTERNS) };
         let dw: Vec<(f64, f64)> = xs.iter().cloned().zip(ws.iter().cloned()).collect();
         let tw = random_ptree(rng, &dw, k, r % 4);
         let w: WeightedMeanWithError = peval(out, &tw, if n <= 10 { Trace::All } else { Trace::None }, rng);
@@ -435,6 +462,47 @@ fn c17_pairs(out: &mut Out, tier: &str, rng: &mut Rng) {
             if let Val::F(v) = a.val { if (a.op.contains("variance") || a.op == "error") && !v.is_nan() { out.x(v >= 0.0, || format!("WMWE.{} = {:?} < 0", a.op, v)); } }
         }
         out.note("pairs");
+    }
+}
+
+/// WeightedMeanWithError / Covariance: a long chunk merged with a very short one, tiny and huge weights
+fn c17_pairs_lopsided(out: &mut Out, tier: &str, rng: &mut Rng) {
+    for (ti, t) in lopsided_trees(rng, tier != "thorough").iter().enumerate() {
+        if !out.next_case() { continue; }
+        let wp = [0usize, 5, 6, 8, 9][ti % 5];
+        let total = t.flatten().len();
+        let ws = crate::props_pair::weights(rng, total, wp);
+        let pt = crate::props_pair::to_ptree(t, &mut |i| ws[i]);
+        let w: WeightedMeanWithError = peval(out, &pt, Trace::None, rng);
+        let aw = pobserve(out, &w);
+        let dw = pt.flatten();
+        let contributing: Vec<f64> = dw.iter().filter(|p| p.1 > 0.0).map(|p| p.0).collect();
+        let n = dw.len();
+        let m = dw.iter().map(|p| p.0.abs()).fold(0.0, f64::max);
+        let slack = 12.0 * n as f64 * 2f64.powi(-53) * m;
+        if !contributing.is_empty() {
+            let mn = contributing.iter().cloned().fold(f64::INFINITY, f64::min);
+            let mx = contributing.iter().cloned().fold(f64::NEG_INFINITY, f64::max);
+            let wm = w.weighted_mean();
+            out.x(wm >= mn - slack && wm <= mx + slack, || format!("weighted mean {:?} outside [{:?},{:?}], lopsided tree of {} observations, weight pattern {}", wm, mn, mx, n, wp));
+            let el = w.effective_len();
+            let rel = n as f64 * 2f64.powi(-50);
+            out.x(el >= 1.0 * (1.0 - rel) && el <= (n as f64) * (1.0 + rel), || format!("effective_len {:?} outside [1,{}], weight pattern {}", el, n, wp));
+        }
+        let (mn, mx) = (dw.iter().map(|p| p.0).fold(f64::INFINITY, f64::min), dw.iter().map(|p| p.0).fold(f64::NEG_INFINITY, f64::max));
+        let um = w.unweighted_mean();
+        out.x(um >= mn - slack && um <= mx + slack, || format!("unweighted mean {:?} outside [{:?},{:?}], lopsided tree of {} observations", um, mn, mx, n));
+        for a in &aw {
+            if let Val::F(v) = a.val { if (a.op.contains("variance") || a.op == "error") && !v.is_nan() { out.x(v >= 0.0, || format!("WMWE.{} = {:?} < 0", a.op, v)); } }
+        }
+        let c: Covariance = peval(out, &pt, Trace::None, rng);
+        for a in pobserve(out, &c) {
+            if let Val::F(v) = a.val {
+                if a.op.contains("variance") && !a.op.contains("covariance") && !v.is_nan() { out.x(v >= 0.0, || format!("Covariance.{} = {:?} < 0", a.op, v)); }
+                if a.op == "mean_x" { out.x(v >= mn - slack && v <= mx + slack, || format!("Covariance.mean_x = {:?} outside [{:?},{:?}], lopsided tree of {} observations", v, mn, mx, n)); }
+            }
+        }
+        out.note("pairs:lopsided");
     }
 }
 
@@ -459,7 +527,10 @@ fn c17_hist<H: Hst>(out: &mut Out, tier: &str, rng: &mut Rng) {
 
 pub fn c17(out: &mut Out, tier: &str, rng: &mut Rng) {
     for_all_est!(c17_est, out, tier, rng);
+    c17_lopsided::<average::Mean>(out, tier, rng); c17_lopsided::<average::Variance>(out, tier, rng);
+    c17_lopsided::<average::Kurtosis>(out, tier, rng); c17_lopsided::<average::Moments4>(out, tier, rng);
     c17_pairs(out, tier, rng);
+    c17_pairs_lopsided(out, tier, rng);
     c17_hist::<H1>(out, tier, rng); c17_hist::<H3>(out, tier, rng); c17_hist::<H10>(out, tier, rng); c17_hist::<H100>(out, tier, rng);
 }
 
@@ -471,7 +542,9 @@ use average::{Estimate, Kurtosis, Max, Mean, Min, Quantile, Skewness, Variance};
 fn c20_est<E: Est>(out: &mut Out, tier: &str, rng: &mut Rng) {
     for _ in 0..(if tier == "thorough" { 120 } else { 30 }) {
         if !out.next_case() { continue; }
-        let cap = if rng.unit() < 0.1 { 3000 } else { 30 }; let n = rng.below(cap);
+        let cap = if rng.unit() < 0.1 { 3000 } else { 30 }; let mut n = rng.below(cap);
+        // lengths around the powers of two (what a buffered or blocked ingestion path would use)
+        if rng.unit() < 0.2 { n = *rng.pick(&BLOCK_LENS[..27]); }
         let (d, _) = if E::ORDER >= 8 { dataset_in(rng, n.max(1), 1e9, -20.0, 20.0, FAMILIES) } else { dataset(rng, n.max(1), 1e9) };
         let d = &d[..n];
         let mut by_add = E::new();
@@ -509,7 +582,8 @@ fn c20_est<E: Est>(out: &mut Out, tier: &str, rng: &mut Rng) {
 fn c20_pair<E: PairEst>(out: &mut Out, tier: &str, rng: &mut Rng) {
     for _ in 0..(if tier == "thorough" { 120 } else { 30 }) {
         if !out.next_case() { continue; }
-        let n = rng.below(30);
+        let mut n = rng.below(30);
+        if rng.unit() < 0.2 { n = *rng.pick(&BLOCK_LENS[..27]); }
         let d: Vec<(f64, f64)> = (0..n).map(|_| (rng.normal() * 1e3 + 5.0, if E::NAME == "Covariance" { rng.normal() } else if rng.unit() < 0.25 { 0.0 } else { rng.unit() * 3.0 })).collect();
         let mut by_add = E::new();
         pfeed(out, &mut by_add, &d, if n <= 10 { Trace::All } else { Trace::None }, rng);
